@@ -356,6 +356,25 @@ func boundaries() []endpoint {
 				return c.su.CreateSubscription(ctx, &pb.CreateSubscriptionRequest{Id: "sub", PromiseId: "p", Timeout: int64(n), Recv: recvL, RequestId: "rid"})
 			}, "", 0})
 	}
+	// no idempotency key, not strict: the kernel request carries no key (nil), in both protocols
+	val := &pb.Value{Headers: map[string]string{"h": "1"}, Data: []byte("data")}
+	out = append(out, endpoint{"CreatePromise:no-key", t_api.CreatePromise, "POST", "/promises", rid, `{"id":"p","timeout":9}`,
+		func(c *clients) (any, error) {
+			return c.p.CreatePromise(ctx, &pb.CreatePromiseRequest{Id: "p", Timeout: 9, RequestId: "rid"})
+		}, "", 0})
+	out = append(out, endpoint{"ResolvePromise:no-key", t_api.CompletePromise, "PATCH", "/promises/p", rid, `{"state":"RESOLVED","value":{"headers":{"h":"1"},"data":"ZGF0YQ=="}}`,
+		func(c *clients) (any, error) {
+			return c.p.ResolvePromise(ctx, &pb.ResolvePromiseRequest{Id: "p", Value: val, RequestId: "rid"})
+		}, "", 0})
+	out = append(out, endpoint{"CreateSchedule:no-key", t_api.CreateSchedule, "POST", "/schedules", rid,
+		`{"id":"s","cron":"* * * * *","promiseId":"x.{{.timestamp}}","promiseTimeout":9}`,
+		func(c *clients) (any, error) {
+			return c.sc.CreateSchedule(ctx, &pb.CreateScheduleRequest{Id: "s", Cron: "* * * * *", PromiseId: "x.{{.timestamp}}", PromiseTimeout: 9, RequestId: "rid"})
+		}, "", 0})
+	out = append(out, endpoint{"CreatePromiseAndTask:no-key", t_api.CreatePromiseAndTask, "POST", "/promises/task", rid, `{"promise":{"id":"p","timeout":9},"task":{"processId":"w","ttl":3}}`,
+		func(c *clients) (any, error) {
+			return c.p.CreatePromiseAndTask(ctx, &pb.CreatePromiseAndTaskRequest{Promise: &pb.CreatePromiseRequest{Id: "p", Timeout: 9, RequestId: "rid"}, Task: &pb.CreatePromiseTaskRequest{ProcessId: "w", Ttl: 3}})
+		}, "", 0})
 	// physical receivers: the JSON object in HTTP, the oneof in gRPC
 	recvP := &pb.Recv{Recv: &pb.Recv_Physical{Physical: &pb.PhysicalRecv{Type: "poll", Data: []byte(`{"group":"g","id":"i"}`)}}}
 	out = append(out, endpoint{"CreateCallback:physical-recv", t_api.CreateCallback, "POST", "/callbacks", rid, `{"Id":"cb","promiseId":"p","rootPromiseId":"root","timeout":9,"recv":{"type":"poll","data":{"group":"g","id":"i"}}}`,
